@@ -381,6 +381,7 @@ type FSInfo struct {
 type NFSRes struct {
 	Proc      uint32
 	Status    uint32
+	BadStatus bool   // Status is not a member of nfsstat3
 	Attr      *Fattr // object attributes (GETATTR obj / LOOKUP obj / post-op of the file)
 	DirAttr   *Fattr // LOOKUP dir attributes
 	Wcc       *Wcc
@@ -461,7 +462,9 @@ func DecodeNFS(proc uint32, res []byte) (*NFSRes, error) {
 		return nil, fmt.Errorf("wire: %s result: %w", ProcName(proc), d.Err)
 	}
 	if _, ok := Nfsstat3[r.Status]; !ok {
-		return r, fmt.Errorf("wire: %s status %d is not a member of nfsstat3", ProcName(proc), r.Status)
+		// keep decoding with the resfail shape so that the caller can tell a
+		// bad status word from a malformed body
+		r.BadStatus = true
 	}
 	ok := r.Status == 0
 	switch proc {
@@ -589,12 +592,13 @@ func FHVal(b []byte) (uint64, bool) {
 // ---------------------------------------------------------------- MOUNT v3
 
 type MountRes struct {
-	Proc    uint32
-	Status  uint32
-	FH      []byte
-	Flavors []uint32
-	Mounts  [][2]string
-	Exports []Export
+	Proc      uint32
+	Status    uint32
+	BadStatus bool // Status is not a member of mountstat3
+	FH        []byte
+	Flavors   []uint32
+	Mounts    [][2]string
+	Exports   []Export
 }
 
 type Export struct {
@@ -612,7 +616,7 @@ func DecodeMount(proc uint32, res []byte) (*MountRes, error) {
 		r.Status = d.U32()
 		if d.Err == nil {
 			if _, ok := Mountstat3[r.Status]; !ok {
-				return r, fmt.Errorf("wire: MNT status %d is not a member of mountstat3", r.Status)
+				r.BadStatus = true
 			}
 		}
 		if r.Status == 0 {
